@@ -14,6 +14,8 @@ _SAFE = set("abcdefghijklmnopqrstuvwxyzABCDEFGHIJKLMNOPQRSTUVWXYZ0123456789_./#-
 
 
 def esc(s: str) -> str:
+    if s == "":
+        return "%;"
     return "".join(c if c in _SAFE else "%%%x;" % ord(c) for c in s)
 
 
@@ -23,7 +25,8 @@ def unesc(s: str) -> str:
     while i < len(s):
         if s[i] == "%":
             j = s.index(";", i)
-            out.append(chr(int(s[i + 1 : j], 16)))
+            if j > i + 1:
+                out.append(chr(int(s[i + 1 : j], 16)))
             i = j + 1
         else:
             out.append(s[i])
@@ -45,7 +48,12 @@ def litval(l: Literal) -> str:
         v = l.value
     except Exception:
         return "n"
-    if v is None or getattr(l, "ill_typed", False):
+    ill = "!" if getattr(l, "ill_typed", None) is True else ""
+    return ill + _litval(v)
+
+
+def _litval(v) -> str:
+    if v is None:
         return "n"
     if isinstance(v, bool):
         return "b1" if v else "b0"
